@@ -102,6 +102,15 @@ func VH_NetlinkSend() {
 			pid = 0
 		}
 		payload := vBytes("payload", n)
+		if st := vParam("symtail", 0); st > 0 && n > st {
+			// a long payload: concrete pattern, the last st bytes symbolic
+			tail := vBytes("tail", st)
+			payload = make([]byte, n)
+			for j := range payload {
+				payload[j] = byte(j*7 + 1)
+			}
+			copy(payload[n-st:], tail)
+		}
 		keep := append([]byte(nil), payload...)
 		seq, err := c.Send(syscall.NetlinkMessage{Header: syscall.NlMsghdr{Type: typ, Flags: flags, Pid: pid, Len: vU32("len"), Seq: vU32("hseq")}, Data: payload})
 		vAssert(err == nil, "C18/send-failed")
